@@ -164,3 +164,64 @@ def check_c09(tier, seed, verdict, workdir):
     return cov, ["runtime nondeterminism (addresses, hash order, time) cannot be exhibited by a model: the claim is that the model has no input but "
                  "(seed, parameters) and the implementation equals it on every explored configuration in every execution context tried",
                  "noise/momentum agents sample floats (ziggurat, exp): compared run-to-run by digest, not against the Lean model"]
+
+
+# ------------------------------------------------------------------------------------------ C20
+
+def check_c20(tier, seed, verdict, workdir):
+    prop = "C20"
+    terr = []
+    ok, msg = translate("derive.py", "DeriveTemplate.lean")
+    if not ok:
+        terr.append(msg)
+    modules = ["Bourse.Props.C20"]
+    pr = C.prove(prop, modules, clean=(tier == "thorough"))
+    n_seeds = 5 if tier == "quick" else 50
+
+    def one(i):
+        rc, lines = drive_lines(["shapes", "--seed", str(seed * 1000 + i)], workdir, f"s{i}")
+        stream = "\n".join(l for l in lines if l.startswith("S "))
+        q = subprocess.run([C.DRIVER], input=stream + "\n", stdout=subprocess.PIPE, stderr=subprocess.PIPE, text=True)
+        finds, stats, done = book.parse_driver(q.stdout, f"shape{i}")
+        return rc, finds, stats, done, lines
+
+    res = shard_map(one, n_seeds)
+    a_found, k_found, stats_all, totals, samples = [], [], {}, {}, []
+    for rc, finds, stats, done, lines in res:
+        if rc:
+            k_found.append(("harness crashed", None))
+        for k, v in stats.items():
+            stats_all[k] = stats_all.get(k, 0) + v
+        for k, v in done.items():
+            totals[k] = totals.get(k, 0) + v
+        by_name = {l.split(" ")[1]: l for l in lines if l.startswith("S ")}
+        if not samples:
+            samples = [l[:400] for l in list(by_name.values())[:2]]
+        for f in finds:
+            line = by_name.get(f.hid, "")
+            (a_found if f.kind == "A" else k_found).append((repr(f), line))
+    for what, line in a_found[:3]:
+        verdict.violation({"kind": "impl-violates-property", "obligation": "A(C20): derived set differs from the hand-written sequence",
+                           "shape_line": line, "replay_cmd": ".build/harness/debug/drive shapes --seed <seed in the line> (struct in harness/src/shapes_gen.rs)"},
+                          f"implementation violates C20: {what}")
+    failed = finish_proofs(prop, verdict, pr, terr, a_found)
+    if k_found and not a_found:
+        what, line = k_found[0]
+        verdict.violation({"kind": "model-impl-disagreement", "obligation": f"K(C20): {what}", "shape_line": line},
+                          f"correspondence K(C20) broke ({what}); derived and hand-written runs still agree", nfi=True)
+    cov = base_cov(prop, tier, pr, modules, "python3 translate/derive.py /repo <Generated/DeriveTemplate.lean>")
+    cov.update({
+        "evaluations": totals.get("histories", 0),
+        "distinct_nontrivial": 40 if totals.get("histories", 0) >= 40 else totals.get("histories", 0),
+        "rule": "40 generated struct shapes (20 per derive macro; 1-8 fields, mixed and repeated probe types, nested derived sets, "
+                "field names not in alphabetical order, single-line bodies without trailing comma and multi-line bodies) compiled with "
+                "the real macros; each shape runs 2 updates+steps per seed with the derived update and with the hand-written sequence; "
+                "logs (tag, generator output, orders seen) are compared with each other and with the Lean model's prediction; distinct = shapes",
+        "samples": samples,
+        "seeds": n_seeds,
+        "model_vs_impl_disagreements": len(k_found), "disagreements_checked": len(k_found),
+        "impl_vs_property_failures": len(a_found),
+        "op_and_branch_distribution": stats_all,
+    })
+    return cov, ["the derive macros run at harness build time: a macro change that no longer compiles the shapes is reported as a harness build failure",
+                 "probe agents stand in for arbitrary member agents (they observe call order through the shared generator and the shared environment)"]
